@@ -84,12 +84,14 @@ def plan(tier, seed):
     specs = [{"mode": "synthetic", "n": n, "rseed": seed * 1000 + i, "step": 5 if tier == "quick" else 2} for i in range(14)]
     specs += [{"mode": "shipped", "which": w, "n": 120 if tier == "quick" else 5000, "rseed": seed * 1000 + 100 + k}
               for k, w in enumerate(["mex", "nimitz"])]
+    specs.append({"mode": "layout", "n": 30 if tier == "quick" else 300, "rseed": seed * 1000 + 200})
     return specs
 
 
 def minimums(tier):
     return {"trace.calls_checked": 8000, "trace.lines_checked": 80000, "get_trace_string.checked": 8000,
-            "workload.truncations": 4000, "workload.short_inputs": 300}
+            "workload.truncations": 4000, "workload.short_inputs": 300, "layout.compared": 50,
+            "layout.decoded_in_plain_tree": 50}
 
 
 def drive(ctx, trace, rng, path, strings, tag, step):
@@ -119,6 +121,17 @@ def run(spec, ctx):
     import io_drawer.trace as trace
     rng = random.Random(spec["rseed"])
     root = harness.scratch_root()
+    if spec["mode"] == "layout":
+        # the shipped string files are found next to the modules: same result however the package is laid out on disk
+        from vf import layout
+        from io_drawer.drawer_type import DRAWER_TYPES
+        cases = []
+        for dt in DRAWER_TYPES:
+            strings = im.parse_shipped_string_file(dt.get_trace_string_file_path())
+            for _ in range(spec["n"]):
+                cases.append((84, dt.user_data_version, iogen.gen_trace(rng, strings, hostile=rng.random() < 0.3)))
+        layout.compare(ctx, "C15", cases, "trace data")
+        return
     if spec["mode"] == "synthetic":
         for i in range(spec["n"]):
             strings = iogen.gen_strings(rng)
